@@ -277,6 +277,35 @@ def reflectedFirst (a b : Impl K) : Bool :=
   | .rvec false _ _, .rvec true _ _ => true
   | _, _ => false
 
+/-! ### Normal form of the scalar factors -/
+
+def Impl.isLScal : Impl K → Bool
+  | .lscal _ _ _ => true
+  | _ => false
+
+def Impl.isRScal : Impl K → Bool
+  | .rscal _ _ _ => true
+  | _ => false
+
+/-- Scalar factors are merged: nowhere in the tree is a left scalar multiplication applied
+directly to a left scalar multiplication, nor a right one to a right one (what the
+`isinstance(operator, OwnClass)` shortcut of the two constructors is for). -/
+def Impl.merged : Impl K → Bool
+  | .leaf _ => true
+  | .sum _ l r => l.merged && r.merged
+  | .scalSum f _ => f.merged
+  | .vecSum a _ => a.merged
+  | .comp _ l r => l.merged && r.merged
+  | .pprod _ l r => l.merged && r.merged
+  | .quot l r => l.merged && r.merged
+  | .lscal _ a _ => a.merged && !a.isLScal
+  | .rscal _ a _ => a.merged && !a.isRScal
+  | .lvec a _ => a.merged
+  | .rvec _ a _ => a.merged
+  | .flvec a _ => a.merged
+  | .const _ _ => true
+  | .zero _ => true
+
 /-! ### The overloads -/
 
 /-- `a + b`, both operators. `Functional.__add__` gives `FunctionalSum` when both are
